@@ -6,3 +6,7 @@ import "encoding/json"
 func rerunOther(kind string, raw json.RawMessage) bool {
 	return false
 }
+
+func jsonUnmarshal(b []byte, v any) error { return json.Unmarshal(b, v) }
+
+func frontReplayOther(kind string, c J) bool { return false }
